@@ -118,6 +118,15 @@ impl RtpsStatefulReader {
         source_guid_prefix: GuidPrefix,
         source_timestamp: Option<Time>,
     ) {
+        // RTPS 8.3.7.3.3: a DATA_FRAG with a non-positive writerSN, a zero fragmentStartingNum, a zero
+        // fragmentSize or no fragments is invalid
+        if data_frag_submessage.writer_sn() <= 0
+            || data_frag_submessage.fragment_starting_num() == 0
+            || data_frag_submessage.fragment_size() == 0
+            || data_frag_submessage.fragments_in_submessage() == 0
+        {
+            return;
+        }
         let writer_guid = Guid::new(source_guid_prefix, data_frag_submessage.writer_id());
         let sequence_number = data_frag_submessage.writer_sn();
         if let Some(writer_proxy) = self
